@@ -24,3 +24,7 @@ package backend
 //@   ensures {C13} [interval-closed] err == nil && ret2 && lastTxt != "" ==> ret0 == first && ret1 == min(last, size - 1) - first + 1
 //@   ensures {C13} [beyond-end] acceptRange != "" && len(strings.Split(acceptRange, "=")) == 2 && strings.Split(acceptRange, "=")[0] == "bytes" && len(strings.Split(spec, "-")) == 2 \
 //@        && strconv.ParseInt(strings.Split(spec, "-")[0], 10, 64).1 == nil && first >= size ==> err != nil
+
+// ParseCopySource is a deterministic function of the header value.
+//@ func ParseCopySource
+//@   pure
